@@ -276,6 +276,7 @@ var envFamily = []envVar{
 	{"mo", tMap(tStr, tObj(TF{"a", tNum}, TF{"b", tStr}))},
 	{"mb", tMaybe(tNum)}, {"ms", tMaybe(tStr)},
 	{"om", tObj(TF{"p", tMaybe(tStr)}, TF{"q", tNum})},
+	{"mb2", tMaybe(tNum)}, {"om2", tObj(TF{"p", tMaybe(tStr)}, TF{"q", tNum})},
 }
 
 func classifyPanic(r interface{}) string {
